@@ -500,7 +500,17 @@ void scan_deps(const std::string& orig_portname, std::string cur_portname,
                 {
                     if(*enabled_by==',')
                         ++enabled_by;
-                    std::string abs = rel2abs(enabled_by, cur_portname);
+                    // the dependency is relative to the Ports object which
+                    // contains "port"; a port like "voice#8/enabled" reaches
+                    // one level further down than its Ports object
+                    std::string base = cur_portname;
+                    for(const char* s = port->name; *s && *s != ':'; ++s)
+                        if(*s == '/' && s[1] && s[1] != ':') {
+                            std::string::size_type sl = base.find_last_of('/');
+                            if(sl != std::string::npos && sl > 0)
+                                base.resize(sl);
+                        }
+                    std::string abs = rel2abs(enabled_by, base);
                     auto itr = message_map.find(abs);
                     if(itr != message_map.end())  // port is in the savefile
                     {
